@@ -29,7 +29,7 @@ package drivers
 
 //@ func (*Reader).eachByte
 //@ requires readerInv(r)
-//@ modifies *r, cb_log
+//@ modifies *r, r.sysexBf[:], cb_log
 //@ ensures [P:C06] readerInv(r)
 //@ ensures [P:C04] r.state == rxMode(old(r.state), old(r.statusByte), old(r.typ), old(r.issetBf), b, old(r.sysexlen), int(r.SysExBufferSize), r.HandleSysex)
 //@ ensures [P:C04] r.statusByte == rxRS(old(r.statusByte), b)
@@ -53,6 +53,7 @@ package drivers
 //@ ensures [P:C04] r.state == 3 && old(r.state) == 3 && b != 0xF0 ==> (r.sysexTS == old(r.sysexTS) && forall j int :: 0 <= j && j < old(r.sysexlen) ==> r.sysexBf[j] == old(r.sysexBf[j]))
 //@ ensures [P:C04] r.state == 3 && old(r.state) == 3 && b < 0x80 && r.HandleSysex ==> r.sysexBf[old(r.sysexlen)] == b
 //@ ensures [P:C04] b == 0xF0 ==> r.sysexTS == r.ts_ms
+//@ ensures [H] r.sysexBf == nil || r.sysexBf == old(r.sysexBf) || fresh(r.sysexBf)
 
 //@ func (*Reader).Reset
 //@ requires r.OnMsg != nil
@@ -70,7 +71,9 @@ package drivers
 //@ func (*Reader).EachMessage
 //@ requires readerInv(r)
 //@ requires deltaMilliSeconds >= 0 && r.ts_ms + deltaMilliSeconds >= r.ts_ms
-//@ modifies *r, cb_log
+// the bytes handed in are not the reader's own sysex buffer
+//@ requires r.sysexBf == nil || ref(bt) != ref(r.sysexBf)
+//@ modifies *r, r.sysexBf[:], cb_log
 //@ ensures [P:C06] readerInv(r)
 //@ ensures [P:C04] r.ts_ms == old(r.ts_ms) + deltaMilliSeconds
 //@ ensures [H] r.SysExBufferSize == old(r.SysExBufferSize) && r.HandleSysex == old(r.HandleSysex) && r.OnMsg == old(r.OnMsg) && r.OnErr == old(r.OnErr)
@@ -82,4 +85,7 @@ package drivers
 //@ loop 0 invariant cb_n == old(cb_n) + rxCount(arr(bt), 0, rangeindex + 1, old(absR(r)), int(r.SysExBufferSize), r.HandleSysex)
 //@ loop 0 invariant r.SysExBufferSize == old(r.SysExBufferSize) && r.HandleSysex == old(r.HandleSysex) && r.OnMsg == old(r.OnMsg) && r.OnErr == old(r.OnErr)
 //@ loop 0 invariant -1 <= rangeindex && rangeindex < len(bt)
+//@ loop 0 invariant r.sysexBf == nil || ref(bt) != ref(r.sysexBf)
+//@ loop 0 invariant r.sysexBf == nil || r.sysexBf == old(r.sysexBf) || fresh(r.sysexBf)
+//@ loop 0 invariant forall j int :: 0 <= j && j < len(bt) ==> bt[j] == old(bt[j])
 //@ loop 0 decreases len(bt) - rangeindex
